@@ -69,7 +69,8 @@ fn main() {
         if let Ok(ms) = ms.trim().parse::<u64>() { std::thread::sleep(std::time::Duration::from_millis(ms)); }
     }
     if let Ok(text) = fs::read(ctrl.join("stderr")) { let _ = std::io::stderr().write_all(&text); }
-    let fail = fs::read_to_string(ctrl.join("fail").join(&module)).ok();
+    let lower_module = match module.split_once('/') { Some((h, rest)) => format!("{}/{}", h.to_ascii_lowercase(), rest), None => module.to_ascii_lowercase() };
+    let fail = fs::read_to_string(ctrl.join("fail").join(&lower_module)).ok();
     let mut code = 0;
     match fail {
         Some(f) => { code = f.trim().parse::<i32>().unwrap_or(10); eprintln!("rsync: failed to connect to {module}: Connection refused (111)"); }
